@@ -76,8 +76,8 @@ def case_to_coq(t, c):
     if c["kind"] == "export":
         entry = coq_list(["(%s, %s)" % (coq_str(e["name"]), coq_list([coq_str(p) for p in e["peers"]])) for e in (c.get("entry") or [])])
         sl = lambda l: coq_list([coq_str(x) for x in (l or [])])
-        return "CExport %s %s %s %s %s %s %s %s %s" % (coq_str(c["peer"]), coq_bool(c.get("peer_known", False)), entry, sl(c.get("typical")), sl(c.get("connect")),
-                                                  sl(c.get("chains")), sl(c.get("bad_chains")), sl(c.get("got_svcs")), sl(c.get("got_chains")))
+        return "CExport %s %s %s %s %s %s %s %s %s %s" % (coq_str(c["peer"]), coq_bool(c.get("peer_known", False)), entry, sl(c.get("typical")), sl(c.get("connect")),
+                                                  sl(c.get("chains")), sl(c.get("tgw")), sl(c.get("bad_chains")), sl(c.get("got_svcs")), sl(c.get("got_chains")))
     if c["kind"] == "upsert":
         ev = "EvUpsert %s %s %s" % (coq_str(c["peer"]), coq_str(c["service"]), coq_list([q_inst(t, i) for i in (c.get("export") or [])]))
     else:
